@@ -78,6 +78,7 @@ class SockProxy:
     def __init__(self, real, rec2, sid, ctx, cfgref, quiet_block=False):
         self._real, self._rec, self._sid, self._ctx, self._cfgref, self._quiet = real, rec2, sid, ctx, cfgref, quiet_block
         self.recv_interp = []
+        self.silent = False      # True: outcomes are recorded by the driver at the PUBLIC API boundary instead of here
 
     def get_fd(self):
         return self._real.get_fd()
@@ -94,7 +95,7 @@ class SockProxy:
         except BaseException as e:  # noqa
             exc, bases, _ = exc_info(e)
             err = e
-        if not (self._quiet and exc == "BlockingIOError"):
+        if not self.silent and not (self._quiet and exc == "BlockingIOError"):
             self._rec.emit(dict(ev="Recv", sid=self._sid, op=op, res=res, exc=exc, bases=bases, interp=list(self.recv_interp)))
         if err is not None:
             raise err
